@@ -72,6 +72,16 @@ class Closure:
         return self.interp.call_closure(self, list(args), kwargs)
 
 
+class BoundMethod:
+    def __init__(self, interp, fi, self_obj):
+        self.interp = interp
+        self.fi = fi
+        self.self_obj = self_obj
+
+    def __call__(self, *args, **kwargs):
+        return self.interp.call_function(self.fi, list(args), kwargs, self_obj=self.self_obj)
+
+
 class Env:
     def __init__(self, parent=None):
         self.vars = {}
@@ -302,20 +312,42 @@ class Interp:
             raise Unsupported(f"statement {type(st).__name__} at line {st.lineno}")
 
     def _local_import(self, st, env, mod):
-        tmp = Module("<tmp>", mod.path, mod.relpath, "", ast.Module(body=[], type_ignores=[]))
-        tmp.name = mod.name
-        # reuse Program's import indexer
-        saved = dict(mod.imports)
-        try:
-            self.prog._index_module.__func__  # noqa: B018
-        except AttributeError:
-            pass
-        m2 = ast.Module(body=[st], type_ignores=[])
-        fake = Module(mod.name, mod.path, mod.relpath, "", m2)
-        self.prog._index_module(fake)
-        for k, imp in fake.imports.items():
-            mod.imports.setdefault(k, imp)
-        del saved
+        if isinstance(st, ast.Import):
+            for a in st.names:
+                nm = a.asname or a.name.split(".")[0]
+                target = a.name if a.asname else a.name.split(".")[0]
+                if nm in self.overrides:
+                    env.set(nm, self.overrides[nm])
+                elif target in self.prog.modules:
+                    env.set(nm, self.prog.modules[target])
+                else:
+                    env.set(nm, Obj("extmodule", name=target))
+            return
+        parts = mod.name.split(".")
+        is_pkg = mod.path.endswith("__init__.py")
+        if st.level:
+            base = parts if is_pkg else parts[:-1]
+            base = base[: len(base) - (st.level - 1)]
+            modname = ".".join(base + ([st.module] if st.module else []))
+        else:
+            modname = st.module
+        for a in st.names:
+            nm = a.asname or a.name
+            if a.name in self.overrides:
+                env.set(nm, self.overrides[a.name])
+                continue
+            full = f"{modname}.{a.name}"
+            if full in self.prog.modules:
+                env.set(nm, self.prog.modules[full])
+                continue
+            tm = self.prog.modules.get(modname)
+            if tm is None:
+                env.set(nm, Obj("extmodule", name=full))
+                continue
+            r = self.prog.resolve_name(tm, a.name)
+            if r is None:
+                raise Unsupported(f"cannot resolve local import {full}")
+            env.set(nm, self.entity_value(r, tm, a.name))
 
     def assign(self, target, value, env, mod):
         if isinstance(target, ast.Name):
@@ -489,6 +521,18 @@ class Interp:
         if isinstance(obj, Obj):
             if attr in obj.attrs:
                 return obj.attrs[attr]
+            k = obj.attrs.get("__class__")
+            if isinstance(k, ClassInfo):
+                r = self.prog.lookup(k, attr)
+                if isinstance(r, FuncInfo):
+                    decos = r.decorators()
+                    if "property" in decos or "abstractproperty" in decos:
+                        return self.call_function(r, [], {}, self_obj=obj)
+                    if "staticmethod" in decos:
+                        return Closure(r.node, Env(), r.module, self, cls=r.cls, name=f"{k.name}.{attr}")
+                    return BoundMethod(self, r, obj)
+                if isinstance(r, ast.AST):
+                    return self.eval(r, Env(), k.module)
             raise Unsupported(f"attribute {attr} of abstract object {obj.kind} ({norm(node)})")
         if isinstance(obj, Module):
             sub = f"{obj.name}.{attr}"
@@ -514,6 +558,8 @@ class Interp:
             return getattr(obj, attr)
         if isinstance(obj, Idx) and attr == "count":
             return obj.count
+        if getattr(type(obj), "__lift_host__", False) and not attr.startswith("_"):
+            return getattr(obj, attr)
         raise Unsupported(f"attribute {attr} on {type(obj).__name__} ({norm(node)})")
 
     def _dx(self, t, ii):
@@ -702,8 +748,6 @@ class Interp:
                 if r is not NotImplemented:
                     return r
             f = self.getattr(recv, e.func.attr, e.func, mod)
-            if isinstance(recv, Obj) and isinstance(f, Closure) and f.self_obj is None and recv.attrs.get("__class__") is not None:
-                args = [recv] + args
         else:
             f = self.eval(e.func, env, mod)
         return self.call(f, args, kwargs, e, mod)
@@ -747,6 +791,8 @@ class Interp:
             return self.isinstance_model(args[0], args[1], node)
         if isinstance(f, Closure):
             return self.call_closure(f, args, kwargs)
+        if isinstance(f, BoundMethod):
+            return f(*args, **kwargs)
         if isinstance(f, ClassInfo):
             if f.name in self.class_models:
                 return self.call(self.class_models[f.name], args, kwargs, node, mod)
